@@ -81,7 +81,7 @@ def household(draw, code, K, allow_weights):
 def country(draw, code, role, K, gold_allowed, has_gov=True):
     c = {'code': code, 'role': role, 'ctor': draw(st.sampled_from(['Country', 'Region'])),
          'goods': 'GOOD', 'labour': 'LAB', 'gov': None, 'hh': [], 'cap': None, 'bus': None, 'tax': None,
-         'money': None, 'deposit': None}
+         'money': None, 'deposit': None, 'bonds': None}
     if role in ('full', 'central'):
         kinds = ['consolidated', 'treasury_cb', 'consolidated']
         if gold_allowed:
@@ -106,6 +106,9 @@ def country(draw, code, role, K, gold_allowed, has_gov=True):
                 c['money'] = {'code': 'MON'}
             if draw(gen.chance(1, 3)):
                 c['deposit'] = {'code': 'DEP', 'r': draw(path(K, 0, 800, places=4))}
+    if c['deposit'] is not None and draw(gen.chance(1, 3)):
+        # a second interest-bearing asset of the same issuer: households then allocate among three assets
+        c['bonds'] = {'code': 'BND', 'r': draw(path(K, 0, 900, places=4)), 'weight': dec4(draw(st.integers(0, 4000)))}
     return c
 
 
@@ -400,6 +403,11 @@ def _construct(spec, out, mod, zsel, nm, dsc, make_external, order_seed, hooks):
                               (lambda cobj=cobj, c=c, issuer=issuer, zi=zi, ci=ci:
                                MoneyMarket(cobj, nm(zi, ci, c['money']['code']), dsc('money'),
                                            issuer_short_code=nm(zi, ci, issuer)))))
+            if c.get('bonds') is not None:
+                decls.append(((zi, ci, 'bonds'), [],
+                              (lambda cobj=cobj, c=c, zi=zi, ci=ci, g=g:
+                               DepositMarket(cobj, nm(zi, ci, c['bonds']['code']), dsc('bonds'),
+                                             issuer_short_code=nm(zi, ci, g['code'])))))
             if c['deposit'] is not None:
                 decls.append(((zi, ci, 'deposit'), [],
                               (lambda cobj=cobj, c=c, zi=zi, ci=ci, g=g:
@@ -476,8 +484,15 @@ def _construct(spec, out, mod, zsel, nm, dsc, make_external, order_seed, hooks):
                         eqn = h['weights']['eqn'].replace('{r}', dep.GetVariableName('r'))
                         depcode = dep.Code
                         moncode = nm(zi, 0, c0['money']['code']) if c0['money'] else 'MON'
-                        arg = {depcode: eqn} if h['weights']['form'] == 'dict' else [(depcode, eqn)]
+                        pairs = [(depcode, eqn)]
+                        if c0.get('bonds') is not None:
+                            # weights are kept small enough for the three shares to stay in [0, 1] is not required:
+                            # the accounting identities hold for any weights
+                            pairs.append((S[(zi, 0, 'bonds')].Code, c0['bonds']['weight']))
+                        arg = dict(pairs) if h['weights']['form'] == 'dict' else list(pairs)
                         S[(zi, ci, 'hh%d' % hi)].GenerateAssetWeighting(arg, moncode)
+            if c0.get('bonds') is not None:
+                S[(zi, 0, 'bonds')].SetExogenous('r', '[' + ', '.join(c0['bonds']['r']) + ']')
         # initial stocks
         for ci, c in enumerate(zone['countries']):
             for hi, h in enumerate(c['hh']):
